@@ -62,10 +62,13 @@ Record iobs := mkIObs {
   io_false_cause : Z;      (* call site that last cleared the claim *)
   io_promotes : Z;         (* promotion callbacks entered *)
   io_demotes : Z;          (* demotion callbacks entered *)
-  io_ended : Z             (* terms ended (claim cleared while held) *)
+  io_ended : Z;            (* terms ended (claim cleared while held) *)
+  io_hb_ta : Z;            (* start of the latest refresh attempt of the running term (the claim itself at first) *)
+  io_hb_te : Z;            (* its end (answer looked at, or the loop's time-out); -1 while it is in flight *)
+  io_hb_op : Z             (* the call of that attempt *)
 }.
-#[export] Instance eta_iobs : Settable _ := settable! mkIObs <io_flag; io_tok; io_acq_rev; io_state; io_started; io_stopping; io_stopped; io_terms; io_views; io_false_cause; io_promotes; io_demotes; io_ended>.
-Definition iobs0 := mkIObs false 0 0 stInit false false false 0 [] 0 0 0 0.
+#[export] Instance eta_iobs : Settable _ := settable! mkIObs <io_flag; io_tok; io_acq_rev; io_state; io_started; io_stopping; io_stopped; io_terms; io_views; io_false_cause; io_promotes; io_demotes; io_ended; io_hb_ta; io_hb_te; io_hb_op>.
+Definition iobs0 := mkIObs false 0 0 stInit false false false 0 [] 0 0 0 0 0 0 0.
 
 Record base := mkBase {
   b_now : Z;
@@ -129,7 +132,10 @@ Definition bapply (b0 : base) (te : Z * ev) : base :=
   | EValDef v len sok sid stok sprio mok hasid mid hastok mtok =>
       b <| b_vals ::= fun m => aset m v (mkVInfo len (zb sok) sid stok sprio (zb mok) hasid mid hastok mtok) |>
   | EIssue i op kind inner root gid key val exp =>
-      b <| b_pend ::= fun m => aset m op (mkPend i kind inner root gid key val exp t None) |>
+      let b1 := b <| b_pend ::= fun m => aset m op (mkPend i kind inner root gid key val exp t None) |> in
+      if (kind =? kUpdate) && (inner =? sHeartbeat) && io_flag (inst_of b i) && (v_stok (vinfo_of b val) =? io_tok (inst_of b i))
+      then upd_inst b1 i (fun x => x <| io_hb_ta := t |> <| io_hb_te := -1 |> <| io_hb_op := op |>)
+      else b1
   | EApply op okind rev val =>
       match aget (b_pend b) op with
       | None => b
@@ -149,6 +155,8 @@ Definition bapply (b0 : base) (te : Z * ev) : base :=
           let v := if p_kind p =? kGet then val else p_val p in
           let lr := mkLR i (p_kind p) (p_inner p) rk rev v (p_key p) t in
           let b1 := b <| b_rets ::= fun m => aset m (p_gid p) lr |> in
+          let b1 := if (io_hb_op (inst_of b1 i) =? op) && (io_hb_te (inst_of b1 i) <? 0)
+                    then upd_inst b1 i (fun x => x <| io_hb_te := t |>) else b1 in
           (* a successful refresh gives the instance a new (token, revision) view *)
           (* the heartbeat loop keeps the new revision only while its own term is still running *)
           if (p_kind p =? kUpdate) && (p_inner p =? sHeartbeat) && (rk =? oOk)
@@ -164,7 +172,8 @@ Definition bapply (b0 : base) (te : Z * ev) : base :=
         | Some r =>
             let tok := v_stok (vinfo_of b (lr_val r)) in
             upd_inst b i (fun x => x <| io_flag := true |> <| io_tok := tok |> <| io_acq_rev := lr_rev r |>
-                                     <| io_terms ::= Z.succ |> <| io_views ::= cons (tok, lr_rev r) |>)
+                                     <| io_terms ::= Z.succ |> <| io_views ::= cons (tok, lr_rev r) |>
+                                     <| io_hb_ta := t |> <| io_hb_te := t |> <| io_hb_op := 0 |>)
         | None => upd_inst b i (fun x => x <| io_flag := true |> <| io_tok := 0 |> <| io_acq_rev := 0 |> <| io_terms ::= Z.succ |>)
         end
       else upd_inst b i (fun x => x <| io_flag := false |> <| io_false_cause := cause |> <| io_ended := (if io_flag x then io_ended x + 1 else io_ended x) |>)
